@@ -14,7 +14,7 @@ def startNs : Nat := 946684800 * nsPerSec   -- synctest bubbles start at 2000-01
 
 def DSt.init : DSt := ⟨St.init 0 0 0, Spec.init 0 0 0, startNs, FMap.empty, FMap.empty, false⟩
 
-def nAddrs : Nat := 8
+def nAddrs : Nat := 16
 
 def dumpMap {β} (m : FMap β) (n : Nat) (f : Nat → β → List String) : List String :=
   let items := (List.range n).filterMap (fun k => (m k).map (f k))
@@ -61,15 +61,17 @@ def step1 (d : DSt) (line : String) : DSt × String :=
     | none => (d, "bad-op")
     | some (ins, impl) =>
       match op, ins.map String.toNat? with
-      | "C12.reset", [some ma, some bm, some ttl] =>
+      | "C12.reset", [some ma, some bm, some ttl, some _] =>
         (⟨St.init ma bm ttl, Spec.init ma bm ttl, startNs, FMap.empty, FMap.empty, true⟩,
          verdict (impl == ["ok"]) none "ok")
       | "C12.sleep", [some ns] =>
         if !d.ok then (d, "bad-op") else
         ({ d with now := d.now + ns }, verdict (impl == ["ok"]) none "ok")
-      | "C12.login", [some _, some addr, some good, some user, some slot] =>
-        if !d.ok || good > 1 then (d, "bad-op") else
-        let o := Op.login addr (good == 1) user
+      | "C12.login", [some _, some peer, some _, some _, some _, some _, some _, some hdr, some tr,
+                      some good, some user, some slot] =>
+        if !d.ok || good > 1 || tr > 1 then (d, "bad-op") else
+        -- 999 = no proxy header yielded an address
+        let o := Op.login ⟨peer, if hdr == 999 then none else some hdr, tr == 1⟩ (good == 1) user
         let r := step d.st d.now o
         let lr := match r.1 with | .login lr => lr | _ => .forbidden
         let ms := match lr with | .ok tok => d.mslots.set slot tok | _ => d.mslots
